@@ -245,7 +245,43 @@ def check(out, ctx):
                                   "a destination written with format() and prefix %r is rewritten by the next run although grammar, prefix and library did not change" % p,
                                   {"prefix": repr(p), "results": [r1, r2, r3], "rewritten": m2 != m1, "content_changed": b2 != b1,
                                    "history": "run(format); run(format); run(no format)"})
+        # directory mode with several grammars (theorems C18_directory_ok / _fails / _failure_untouched): whichever
+        # entry of the directory is invalid (the listing order is the file system's), the run fails; the
+        # destination of the invalid grammar is left as it was; a run over valid grammars only compiles all
+        dir_runs = 0
+        names = ["a", "b", "c", "d"]
+        for bad in range(len(names) + 1):          # the last round: the invalid grammar sits in a sub-directory
+            d = os.path.join(tmp, "m%d" % bad)
+            os.makedirs(os.path.join(d, "sub"))
+            paths = [os.path.join(d, n + ".ebnf") for n in names] + [os.path.join(d, "sub", "e.ebnf")]
+            for i, pth in enumerate(paths):
+                open(pth, "wb").write(T["1"] if i % 2 == 0 else T["2"])
+            open(os.path.join(d, "notes.txt"), "wb").write(b"not a grammar")
+
+            def drun():
+                return vp.pipe_lines(ctx.direct, ["compile\tdir\t%s\t-\t0\t" % d])[0].split("\t")[0]
+            r1 = drun()
+            dir_runs += 1
+            dests = [pth[:-5] + ".rs" for pth in paths]
+            if r1 != "OK" or not all(os.path.exists(x) for x in dests):
+                out.violation("c18:dir-all:%d" % bad, "directory mode over valid grammars only: result %s, destinations written: %s" % (r1, [os.path.exists(x) for x in dests]),
+                              {"history": "five valid grammars (one in a sub-directory); run", "result": r1})
+                continue
+            old = open(dests[bad], "rb").read()
+            open(paths[bad], "wb").write(T["x"])          # syntax-invalid text
+            r2 = drun()
+            dir_runs += 1
+            now = open(dests[bad], "rb").read() if os.path.exists(dests[bad]) else None
+            if r2 == "OK":
+                out.violation("c18:dir-reports-success:%d" % bad,
+                              "directory mode returns Ok although %s is invalid (its destination still holds the compilation of the old text)" % os.path.relpath(paths[bad], d),
+                              {"history": "five valid grammars; run; make %s invalid; run" % os.path.relpath(paths[bad], d), "results": [r1, r2]})
+            elif r2 == "PANIC":
+                out.violation("c18:panic", "Compile::run panicked in directory mode", {"history": "dir", "results": [r1, r2]})
+            elif now != old:
+                out.violation("c18:dir-failed-run-wrote:%d" % bad, "a failing directory run changed the destination of the invalid grammar", {"results": [r1, r2]})
         out.coverage.update({
+            "directory_runs_with_several_grammars": dir_runs,
             "evaluations": runs, "distinct_nontrivial": len(nontrivial), "format_runs": fmt_runs,
             "rule": "random histories (3..12 ops) of {edit grammar to one of 2 valid / 1 syntax-invalid / 2 generator-rejected / 1 CRC-colliding text or make it unreadable, change prefix (4 prefixes incl. one that is a prefix of another), delete destination, run} in file mode, explicit-destination mode and directory mode, plus 7 directed histories; evaluations = runs of Compile; non-trivial = history of >= 4 ops; distinct by op sequence",
             "samples": samples, "histories": len(hist), "model_vs_implementation_disagreements": disagree,
